@@ -1379,6 +1379,47 @@ fn search_gen(obs: &[&str]) {
     }
 }
 
+// C12 (diagnostic slice): syntax errors at many positions (every truncation and every single-character corruption of a few definitions, with \n, \r\n and mixed
+// line endings, blank lines, non-ASCII text): try_from must not panic, and Error::Parse { line, column } must name a line that is one of the input's lines
+// (split on '\n') with 1 <= column <= chars(line) + 1.
+fn search_parse_diag(obs: &[&str]) {
+    use std::convert::TryFrom;
+    use varlink_parser::IDL;
+    let mut found: std::collections::HashMap<&'static str, Value> = std::collections::HashMap::new();
+    let mut explored = 0usize;
+    let bases = [
+        "interface org.example.a\nmethod Foo(a: int, b: ?[]string) -> (c: (x: bool, y: [string]float))\ntype T (e: (one, two))\nerror E (m: string)\n",
+        "# doc\r\ninterface org.example.b\r\n\r\nmethod Ping(ping: string) -> (pong: string)\r\n# \u{e9}\u{4e16}\r\nerror Bad ()\r\n",
+        "interface org.example.c\n\n\n  method   M ( )->( )\n\ntype X (a: object, b: [string](), c: ?X)",
+    ];
+    let mut texts: Vec<String> = Vec::new();
+    for b in bases {
+        let chars: Vec<char> = b.chars().collect();
+        for cut in 0..chars.len() { texts.push(chars[..cut].iter().collect()); }
+        for at in 0..chars.len() { for c in ['$', '\n', '(', '\u{e9}', '\r'] { let mut v = chars.clone(); v[at] = c; texts.push(v.iter().collect()); } }
+    }
+    for t in texts {
+        explored += 1;
+        let r = std::panic::catch_unwind(|| IDL::try_from(t.as_str()).map(|_| ()));
+        match r {
+            Err(_) => { found.entry("panic").or_insert(json!({"text": t, "observed": "try_from panicked"})); }
+            Ok(Err(varlink_parser::Error::Parse { line, column })) => {
+                let is_line = t.split('\n').any(|l| l == line);
+                let col_ok = column >= 1 && column <= line.chars().count() + 1;
+                if !is_line || !col_ok {
+                    found.entry("line").or_insert(json!({"text": t, "reported_line": line, "reported_column": column, "line_is_a_line_of_the_input": is_line, "column_within_line": col_ok}));
+                }
+            }
+            _ => {}
+        }
+    }
+    for ob in obs {
+        let class = if *ob == "C12.no-panic" { "panic" } else { "line" };
+        let f = found.get(class).or_else(|| found.get("panic")).or_else(|| found.get("line"));
+        emit(ob, f.is_some(), explored, f.cloned().unwrap_or(Value::Null));
+    }
+}
+
 fn main() {
     let pat = std::env::args().nth(1).unwrap_or_else(|| "*".to_string());
     let m = |ob: &str| -> bool {
@@ -1417,6 +1458,8 @@ fn main() {
     if !cli.is_empty() { search_cli(&cli); }
     let br: Vec<&str> = ["C18.relay", "C18.copy", "C18.request", "C18.getinfo", "C18.oneway", "C18.no-panic"].iter().cloned().filter(|o| m(o)).collect();
     if !br.is_empty() { search_bridge(&br); }
+    let pd: Vec<&str> = ["C12.line", "C12.no-panic"].iter().cloned().filter(|o| m(o)).collect();
+    if !pd.is_empty() { search_parse_diag(&pd); }
     let gen: Vec<&str> = ["C08.dispatch", "C08.method-name", "C08.args", "C08.client", "C08.no-panic"].iter().cloned().filter(|o| m(o)).collect();
     if !gen.is_empty() { search_gen(&gen); }
     let cert: Vec<&str> = ["C19.gate", "C19.step", "C19.own-id", "C19.mode", "C19.value"].iter().cloned().filter(|o| m(o)).collect();
